@@ -527,7 +527,7 @@ Lemma vfr_logfail : forall t evt, vpres Rfr (uts_logfail t evt).
 Proof. intros; unfold uts_logfail; walk. Qed.
 Lemma vfr_retrying : forall t route idx r ns, vpres Rfr (uts_retrying t route idx r ns).
 Proof. intros; unfold uts_retrying; walk. Qed.
-Lemma vfr_completion : forall t route evt ts idx ns, vpres Rfr (uts_completion ev t route evt ts idx ns).
+Lemma vfr_completion : forall t route evt ts idx ns o0, vpres Rfr (uts_completion ev t route evt ts idx ns o0).
 Proof. intros; unfold uts_completion; walk. Qed.
 Lemma vfr_queue : forall t route idx ts o n compl, vpres Rfr (uts_queue ev t route idx ts o n compl).
 Proof. intros; unfold uts_queue; walk. Qed.
@@ -819,9 +819,9 @@ Lemma vw_setst : forall i ns, vpres Rw (uts_setst i ns).
 Proof. intros; unfold uts_setst; walk. Qed.
 Lemma vw_retrying : forall t route idx r ns, vpres Rw (uts_retrying t route idx r ns).
 Proof. intros; unfold uts_retrying. pose proof (fun f H => vw_upd_rec idx f H) as Hv. walk. Qed.
-Lemma vw_completion : forall t route evt ts idx ns, task_has_items ts = false ->
-  vpres Rw (uts_completion ev t route evt ts idx ns).
-Proof. intros t route evt ts idx ns Hts; unfold uts_completion. rewrite Hts. cbn [andb negb]. walk. Qed.
+Lemma vw_completion : forall t route evt ts idx ns o0, task_has_items ts = false ->
+  vpres Rw (uts_completion ev t route evt ts idx ns o0).
+Proof. intros t route evt ts idx ns o0 Hts; unfold uts_completion. rewrite Hts. cbn [andb negb]. walk. Qed.
 Lemma vw_queue : forall t route idx ts o n compl, vpres Rw (uts_queue ev t route idx ts o n compl).
 Proof.
   intros; unfold uts_queue. pose proof (fun f H => w_upd_rec idx f H) as Hu. pose proof (fun f H => vw_upd_rec idx f H) as Hv.
@@ -1041,10 +1041,10 @@ Proof. unfold Rsub; intros; auto. Qed.
 Lemma Rlt_Rsub : forall c c', Rlt c c' -> Rsub c c'.
 Proof. intros c c' [_ [_ [H _]]] s Hs. rewrite H in Hs; exact Hs. Qed.
 
-Lemma sub_completion : forall t route evt ts idx ns, task_has_items ts = false ->
-  vpres Rsub (uts_completion ev t route evt ts idx ns).
+Lemma sub_completion : forall t route evt ts idx ns o0, task_has_items ts = false ->
+  vpres Rsub (uts_completion ev t route evt ts idx ns o0).
 Proof.
-  intros t route evt ts idx ns Hts. unfold uts_completion. rewrite Hts. cbn [andb negb].
+  intros t route evt ts idx ns o0 Hts. unfold uts_completion. rewrite Hts. cbn [andb negb].
   assert (L : forall A (m : M A), vpres Rlt m -> vpres Rsub m)
     by (intros A m H c c' a E; apply Rlt_Rsub; eapply H; exact E).
   assert (PL : forall A (m : M A), preserves Rlt m -> preserves Rsub m)
@@ -1062,10 +1062,10 @@ Proof.
                  | apply (vp_modws Rsub); intros c s Hs; simpl in Hs; eapply staged_remove_task_incl; exact Hs ]).
 Qed.
 
-Lemma cnt_completion : forall t route evt ts idx ns, task_has_items ts = false ->
-  vpres Rcnt (uts_completion ev t route evt ts idx ns).
+Lemma cnt_completion : forall t route evt ts idx ns o0, task_has_items ts = false ->
+  vpres Rcnt (uts_completion ev t route evt ts idx ns o0).
 Proof.
-  intros t route evt ts idx ns Hts. unfold uts_completion. rewrite Hts. cbn [andb negb].
+  intros t route evt ts idx ns o0 Hts. unfold uts_completion. rewrite Hts. cbn [andb negb].
   assert (L : forall A (m : M A), vpres Rlt m -> vpres Rcnt m)
     by (intros A m H c c' a E; apply Rstg_Rcnt; apply Rlt_Rstg; eapply H; exact E).
   pose proof (L _ _ (vlt_request_failed)) as H1.
@@ -1284,15 +1284,15 @@ Proof.
   destruct (pre_machine_inv ev _ _ _ _ _ _ _ _ H) as [r [ns [c1 [c2 [Hr [Ens [Est [Hn1 [_ [_ [Ert [Ec [_ [Hpi [Hpo Hpn]]]]]]]]]]]]]]].
   destruct (setst_eff _ _ _ _ _ Est Hr) as [S1 [S2 [S3 [S4 [S5 [S6 [S7 [S8 S9]]]]]]]].
   destruct (retrying_eff _ _ _ _ _ _ _ Ert) as [F2 [R1 [R2 R3]]].
-  pose proof (vfr_completion ev _ _ _ _ _ _ _ _ _ Ec) as F3.
-  pose proof (sub_completion _ _ _ _ _ _ Hts _ _ _ Ec) as U3.
-  pose proof (cnt_completion _ _ _ _ _ _ Hts _ _ _ Ec) as N3. unfold Rcnt in N3.
+  pose proof (vfr_completion ev _ _ _ _ _ _ _ _ _ _ Ec) as F3.
+  pose proof (sub_completion _ _ _ _ _ _ _ Hts _ _ _ Ec) as U3.
+  pose proof (cnt_completion _ _ _ _ _ _ _ Hts _ _ _ Ec) as N3. unfold Rcnt in N3.
   assert (N1 : ncmd c1 = ncmd c3) by (unfold ncmd; rewrite S3; reflexivity).
   destruct (Rfr_trans _ _ _ F2 F3) as [T1 [T2 [T3 [T4 [T5 T6]]]]].
   exists r, ns. split; [exact Hr|]. split; [exact Ens|]. split; [exact Hpi|]. split; [exact Hpo|]. split; [exact Hpn|].
   split; [congruence|]. split; [rewrite T2, S1; reflexivity|]. split; [rewrite <- S4; exact T3|].
   split; [congruence|]. split; [congruence|]. split; [congruence|].
-  destruct (completion_inv ev _ _ _ _ _ _ _ _ _ Ec) as [[Hnc [Hcn Hcc]]|[Hcomp [c6 [r6 [ctx [b [K6 [G6 [Hr6 [Hc6 [Hb6 Hn6]]]]]]]]]]].
+  destruct (completion_inv ev _ _ _ _ _ _ _ _ _ _ Ec) as [[Hnc [Hcn Hcc]]|[Hcomp [c6 [r6 [ctx [b [K6 [G6 [Hr6 [Hc6 [Hb6 Hn6]]]]]]]]]]].
   - (* not completed *)
     subst cp. split.
     { intros s Hin. destruct (status_eqb (rstatus (stepped r ns)) S_RETRYING) eqn:Es.
